@@ -105,9 +105,9 @@ CHECKS.update({
             "level": ("All ordered pairs (a third of them per seed in quick) of a ~120-term pool (IRIs, blank nodes, variables, plain / language / typed literals incl. non-canonical, ill-typed, NaN, unknown datatypes, character-class strings) are compared with ==, !=, hash, "
                       "set / dict collapse, < and >; sampled triples for transitivity; sorted() of random sublists twice and shuffled; each term goes through pickle protocols 0-5, copy, deepcopy, from_n3, a Turtle document and a SPARQL VALUES clause; TLC validates equality-iff-same-identity, "
                       "hash agreement, symmetry / negation, strict order laws on constrained pairs, sort reproducibility and identity preservation of every route.")},
-    "C16": {"engine": "terms", "technique": _TT, "note": _NOTE_COMMON + " Third-party documents are covered for TSV only (randomised writer); JSON / XML are read back from the writers of rdflib.",
+    "C16": {"engine": "terms", "technique": _TT, "note": _NOTE_COMMON + " Third-party documents are covered by independent randomised writers for TSV, JSON and XML (key / attribute order, white space, escapes and character references, CDATA, namespace prefix, legacy typed-literal), not by a grammar-exhaustive enumeration.",
             "level": ("Result tables (0-3 variables, 0-4 rows, unbound cells, rows entirely unbound, never-bound variables, duplicate rows, cells over every term kind and 13 character classes, ASK true / false) are written by rdflib as JSON and XML and read back, rendered as CSV, "
-                      "and read from TSV documents produced by an independent randomised writer; TLC validates variable list, row sequence, term identity per cell up to one blank-node bijection (CSV judged by its lossy mapping), unbound != empty string, and boolean results.")},
+                      "and read from TSV, JSON and XML documents produced by independent randomised writers; TLC validates variable list, row sequence, term identity per cell up to one blank-node bijection (CSV judged by its lossy mapping), unbound != empty string, and boolean results.")},
 })
 ENGINES += [{"name": "terms", "path": "spec/TraceTerms.tla spec/TraceResults.tla harness/rvf/terms_replay.py harness/rvf/results_replay.py", "serves_properties": ["C07", "C16"], "kind_free_text": "term identity laws and result-table equality in TLA+; TLC validates rdflib observations"}]
 CHECKS["C09"] = {"engine": "xsd", "technique": "TLA+ transcription of the XSD lexical spaces at character level (XsdLexical.tla: validity, facets, canonical forms; laws checked by TLC over every string of length <= 5 of a 6-letter alphabet) + TLC validation of every observation recorded from rdflib (TraceXsd.tla), known findings as witness classes",
